@@ -787,6 +787,15 @@ func zz09tDecodeSame(e1, e2 error, atName bool) {
 	vrt.AssertKF("C09/decoder/decode-same-success", (e1 == nil) == (e2 == nil), "KF-C09-decode-at-object-name", atName && e1 == nil && e2 != nil)
 }
 
+func zz09tBlankTail(b []byte) bool {
+	for _, c := range b {
+		if c != ' ' && c != '\t' && c != '\r' && c != '\n' {
+			return false
+		}
+	}
+	return true
+}
+
 // zz09tSepClose: the text contains ',' or ':' followed, after optional blanks, by ']' or '}'.
 func zz09tSepClose(in []byte) bool {
 	for i := 0; i < len(in); i++ {
@@ -824,6 +833,7 @@ func VerifC09TDecoder(tmpl string, steps, target int, useNumber, disallow bool) 
 	vrt.Assert("C09/decoder/offset-initial", d1.InputOffset() == d2.InputOffset())
 	for i := 0; i < steps; i++ {
 		var e1, e2 error
+		off := int(d2.InputOffset())
 		atName := false // v1's tokenizer is inside an object where a member name is due
 		if k, n := d1.dec.StackIndex(d1.dec.StackDepth()); k == '{' && n%2 == 0 {
 			atName = true
@@ -884,6 +894,11 @@ func VerifC09TDecoder(tmpl string, steps, target int, useNumber, disallow bool) 
 			}
 			// KF-C09-more-before-invalid-close: invalid input with ',' or ':' directly before a
 			// closing bracket: the classic More looks at the separator, v1 at the bracket
+			if m1 && !m2 && zz09tBlankTail(in[off:]) {
+				// KF-C09-more-at-truncation: the input ends inside an open array/object: classic
+				// More says false, v1 says true (the next Token/Decode fails in both)
+				vrt.AssertKF("C09/decoder/more-same", false, "KF-C09-more-at-truncation", true)
+			}
 			vrt.AssertKF("C09/decoder/more-same", m1 == m2, "KF-C09-more-before-invalid-close", !m1 && m2 && zz09tSepClose(in))
 		}
 		if e1 != nil || e2 != nil {
